@@ -1,11 +1,14 @@
 """C01 - returned values satisfy every active hard constraint and their declared type."""
-from .. import engine, fam_expr
+from .. import engine, fam_expr, fam_list, fam_hist, fam_tree
 
 LEVEL = "model_checking"
 
 
 def scenarios(tier, seed):
-    return fam_expr.family_E(tier, seed) + fam_expr.family_S(tier, seed) + fam_expr.family_Q(tier, seed) + fam_expr.family_Wd(tier, seed) + fam_expr.family_G(tier, seed) + fam_expr.family_K(tier, seed)
+    return fam_expr.family_E(tier, seed) + fam_expr.family_S(tier, seed) + fam_expr.family_Q(tier, seed) + fam_expr.family_Wd(tier, seed) + fam_expr.family_G(tier, seed) + fam_expr.family_K(tier, seed) + \
+        [x for x in fam_list.family_fixed(tier, seed) if any(k in x["id"] for k in ("/expr_elem/", "/index/", "/fe_sorted/", "/fe_idx/"))] + \
+        fam_hist.family_H(tier, seed, n=8 if tier == "quick" else 120) + \
+        fam_tree.family_T(tier, seed, n=6 if tier == "quick" else 80, probes=True, tag="T01") + fam_tree.family_nonrand_member(tier, seed)
 
 
 def run(tier, seed, limit=0):
@@ -15,5 +18,7 @@ def run(tier, seed, limit=0):
         scs = scs[:limit]
     chk.run_scenarios(scs, "Trace_VscRand")
     chk.run_mc("MC_VscRand", {"MaxLevel": 4 if tier == "quick" else 6}, workers=12, label="A-level API machine on world W-flags")
-    return chk.finish(LEVEL, "family E/S programs x exhaustive truth tables; non-trivial = accepted scenario with distinct event content",
+    return chk.finish(LEVEL, "family E/S/Q/Wd/G/K programs x exhaustive truth tables; relations between expressions and list elements (literal and foreach "
+                      "indices, either operand order); histories with rangelist / list edits between calls and three-level object trees (the values returned by "
+                      "LATER calls satisfy the constraints as they read then); non-trivial = accepted scenario with distinct event content",
                       ["TLC 1.8; BV/Expr reference semantics; world->DSL compiler"])
